@@ -27,12 +27,17 @@ type c19Cfg struct {
 	Ceiling   int    `json:"ceiling"`
 	Prefill   int    `json:"prefill"`        // rows emitted by the main thread before the producers start (buffer already full)
 	Threshold float64 `json:"trigger_threshold"` // expansion trigger threshold (default 0.8)
+	Growth    float64 `json:"growth_factor,omitempty"` // default 1.5
+	Inc       int     `json:"min_increment,omitempty"` // default 1
 }
 
 func (c c19Cfg) name() string {
 	n := fmt.Sprintf("p%d-r%d-buf%d-%s-to%d-ceil%d", c.Producers, c.Rows, c.Buf, c.Strategy, c.TimeoutUs, c.Ceiling)
 	if c.Prefill > 0 {
 		n += fmt.Sprintf("-prefill%d-thr%v", c.Prefill, c.Threshold)
+	}
+	if c.Growth > 0 || c.Inc > 0 {
+		n += fmt.Sprintf("-g%v-inc%d", c.Growth, c.Inc)
 	}
 	return n
 }
@@ -55,7 +60,11 @@ func c19Configs(tier string) []c19Cfg {
 	// the consumer is draining; threshold 0.5 lets a half-full sample still expand (stale length)
 	out = append(out, c19Cfg{Producers: 2, Rows: 1, Buf: 2, Strategy: "expand", Ceiling: 4, Prefill: 2, Threshold: 0.5},
 		c19Cfg{Producers: 2, Rows: 1, Buf: 2, Strategy: "expand", Ceiling: 3, Prefill: 2, Threshold: 0.8},
-		c19Cfg{Producers: 2, Rows: 1, Buf: 2, Strategy: "drop", Prefill: 2})
+		c19Cfg{Producers: 2, Rows: 1, Buf: 2, Strategy: "drop", Prefill: 2},
+		// other growth parameters: doubling with increment 2 up to 4 / 8, and a factor that rounds down to no growth
+		c19Cfg{Producers: 2, Rows: 2, Buf: 1, Strategy: "expand", Ceiling: 4, Growth: 2, Inc: 2},
+		c19Cfg{Producers: 1, Rows: 2, Buf: 2, Strategy: "expand", Ceiling: 8, Growth: 2, Inc: 1, Prefill: 2, Threshold: 0.5},
+		c19Cfg{Producers: 2, Rows: 2, Buf: 2, Strategy: "expand", Ceiling: 3, Growth: 1.1, Inc: 1})
 	return out
 }
 
@@ -79,6 +88,12 @@ func c19Run(cfg c19Cfg) explore.RunFunc {
 				perf.BufferConfig.MaxBufferSize = cfg.Ceiling
 				perf.OverflowConfig.ExpansionConfig.GrowthFactor = 1.5
 				perf.OverflowConfig.ExpansionConfig.MinIncrement = 1
+				if cfg.Growth > 0 {
+					perf.OverflowConfig.ExpansionConfig.GrowthFactor = cfg.Growth
+				}
+				if cfg.Inc > 0 {
+					perf.OverflowConfig.ExpansionConfig.MinIncrement = cfg.Inc
+				}
 				perf.OverflowConfig.ExpansionConfig.TriggerThreshold = 0.8
 				if cfg.Threshold > 0 {
 					perf.OverflowConfig.ExpansionConfig.TriggerThreshold = cfg.Threshold
